@@ -154,8 +154,13 @@ func DrawStreamCase(ch Chooser) *StreamCase {
 	k := ch.Intn(len(streamKinds))
 	c.Kind = streamKinds[k]
 	base := func() string {
-		if ch.Intn(3) == 1 {
+		switch ch.Intn(6) {
+		case 1, 2:
 			return gen.JunkProgram(ch.Intn)
+		case 3:
+			// unusual definition graphs (alias chains and cycles, mutual recursion): the parser's
+			// last stage infers modes over them
+			return gen.TypeStress(ch.Intn)
 		}
 		return gen.Generate(ch.Intn, gen.Options{}).Text()
 	}
